@@ -1036,3 +1036,821 @@ Proof.
   split; [lia|]. split; [exact ex_imesh49_slopes|]. exact interp_last_node_inexact.
 Qed.
 
+
+(* ---------------------------------------------------------------------------------------------------------------
+   C19, round three (package meshio3): the file round trip for a formatter that ROUNDS.
+   Mesh1D::output writes `{number:.prec$}` (fixed point, prec digits after the point -- src/mesh1d.rs:154-156; the same in
+   Mesh2D::output / output_var), so `parse (fmt x) = Ok x` -- the hypothesis of read_layout_roundtrip above -- holds only for
+   values with at most prec decimals.  The theorems below assume instead   parse (fmt x) = Ok (rnd x)   for an arbitrary
+   function rnd (and only of the values the mesh holds where that is enough):
+     read_layout_roundtrip_rounded   the mesh read back = the written mesh with every node and every value replaced by its
+                                     rounding (map_mesh1 rnd m): same nvars, same number of nodes, same order
+     rounded_mesh_entries            what map_mesh1 is, entry by entry
+     read_layout_roundtrip_held      the values held survive printing  ->  the mesh read back is the mesh written
+     roundtrip_idempotent            fmt (rnd x) = fmt x  ->  rnd (rnd x) = rnd x, the file written from the re-read mesh is
+                                     the first file token for token, and reading it again returns the same mesh
+     read_written_bad_token          a held value whose token does not parse: read panics
+     read1_ok_or_parse_panic         read on ANY token list (any length) into a well-formed mesh: a well-formed mesh with
+                                     ceil(len / (nvars+1)) nodes, or the panic of the parser on one of the tokens -- the
+                                     indexing `self.vars[i / (nvars+1)][var]` can never go out of range
+     read1_ok_iff                    read returns a mesh  <->  every token parses
+     read1_panic_class               a parser with one panic (f64::from_str(..).unwrap(): Unwrap): read returns exactly
+                                     that panic, exactly when some token does not parse
+     read1_any_length                the complete result of read on ANY token list whose tokens parse, entry by entry:
+                                     vars[k][v] = the token at position k*(nvars+1)+v+1 IF THE FILE HAS ONE, else the
+                                     value of the mesh read into (or 0 beyond its nodes)
+     read1_incomplete_line           so a file ending in an incomplete line is read without error and the missing
+                                     variables of the last node silently keep stale values (observed on the
+                                     implementation: the file "1 2 3 / 4 5" read into a mesh holding 80..83 gives vars[1] = [5, 81])
+     tied_reread_rounded, tied_file_rounded
+                                     the step function executed against the implementation on every run (tokens carried
+                                     as the numbers they parse to, fmt = the measured table value -> printed value,
+                                     parse = Ok) returns the mesh rounded by that table
+   A concrete instance on the exact tier (Proofs/MeshIO3Fmt.v, MeshIO3Inst.v), so that the hypotheses are met by
+   something that is not the identity: division rounded to nearest with ties to even (rneQ), the fixed-point formatter
+   {:.N} = the one the code uses (fmt_fix / parse_fix / rnd_fix: token = sign + the digits as one integer) and the
+   scientific formatter {:.Ne} (fmt_sci / parse_sci / rnd_sci: sign, N+1 digits, decimal exponent):
+     rneQ_nearest_even               |rneQ q - q| <= 1/2, equality only at a tie and then the result is even; integers fixed
+     fix_formatter_laws              parse (fmt x) = Ok (rnd x), fmt (rnd x) = fmt x, |rnd x - x| <= 10^-N / 2
+     fix_fixpoints                   rnd x = x  <->  x has at most N decimals
+     sci_formatter_laws              the same with |rnd x - x| <= |x| 10^-N / 2 (relative), and what is printed has exactly
+                                     N+1 significant digits (or is 0)
+     sci_formatter_ulp               10^e <= |x| < 10^(e+1) for e = dexp x, and |rnd x - x| <= 10^(e-N) / 2: half a unit of the
+                                     last of the N+1 digits; the printed exponent is e, or e+1 with mantissa 1.00..0 (carry)
+     file_roundtrip_fix, file_roundtrip_fix_twice, file_roundtrip_fix_exact, file_roundtrip_sci
+                                     Mesh1D<Rat,Rat>: write + read = the mesh rounded entry by entry, every entry within
+                                     half a unit of the last digit; a second round trip is the identity; entries with at
+                                     most N decimals come back unchanged
+     read_fix_outcome                reading any token list: a mesh or Panic Unwrap, the panic iff a token is malformed
+   The SECOND rounding (Proofs/MeshIO3Fl.v): f64::from_str rounds the decimal to a binary64.  With the parser followed by
+   an ARBITRARY function fl on the rationals:
+     fmt_fix_near                    a number strictly within half a unit of the last digit of a decimal prints as it
+     file_roundtrip_fix_fl           write + read = every entry replaced by fl (rnd_fix N entry)   (nothing asked of fl)
+     file_roundtrip_fix_fl_twice     if fl moves every printed decimal by less than 10^-N / 2, the second file is the
+                                     first file and the second round trip is the identity
+     file_roundtrip_fix_fl_twice_rel the same from a relative error bound |fl y - y| <= u |y| for entries with
+                                     u |decimal| < 10^-N / 2 (binary64, u = 2^-53: |decimal| < 10^-N * 4.5e15), and
+                                     |read back - written| <= 10^-N / 2 + u |decimal|.  That the standard library's
+                                     from_str satisfies the bound (correct rounding, no overflow/underflow) is assumed,
+                                     not proved; beyond the bound on the entries nothing is proved here
+     file_roundtrip_fix_nearest      NO bound on the entries: if the entries lie in a set F (the binary64 numbers) and
+                                     fl y is at least as close to y as every element of F (from_str rounds to nearest),
+                                     then fmt (fl (rnd x)) = fmt x for every x in F -- at a tie the printed last digit is
+                                     even, so the tie read back prints the same -- hence second file = first file, second
+                                     round trip = identity, and |read back - written| <= 10^-N
+   Mesh2D (Proofs/MeshIO3Out2.v):
+     output_var2_layout              output_var writes, for every j, one line x_i y_j v(i,j) per i and an empty line;
+                                     a variable that does not exist panics (Index) on the first node
+     output2_contents                line j*(nx+1)+i of the file of output is the line of node (i,j) = x_i, y_j, then the
+                                     nvars variables of the node at slot i*ny+j; line j*(nx+1)+nx is empty; token
+                                     (j*nx+i)*(nvars+2)+c of the whitespace-token stream is token c of that line
+     output_var2_is_projection       the file of output_var = the file of output with the other variables' columns removed
+   Proofs/MeshIO3Sample.v: recorded output of the Rust standard library's `{:.*}` / `{:.*e}` on 240 binary64 values (6 exact
+   ties, 7 negative values rounding to zero): the digits are fmt_fix / fmt_sci of the exact rational value of the float.
+   NOT modelled: the sign of a negative value that rounds to zero (Rust prints "-0.00" and reads -0.0; rationals have no
+   signed zero, the model's token is unsigned), NaN / infinities; the binary64 rounding of f64::from_str is a parameter
+   (fl) of the last five formatter theorems and absent from the others (exact rational arithmetic).
+   --------------------------------------------------------------------------------------------------------------- *)
+From Coq Require Import ZArith QArith Qabs Qcanon.
+Close Scope Qc_scope.
+Close Scope Q_scope.
+From OV Require Import Proofs.MeshIO3.
+From OV Require Import Proofs.MeshIO3Fmt.
+From OV Require Import Proofs.MeshIO3Inst.
+From OV Require Import Proofs.MeshIO3Out2.
+From OV Require Import Proofs.MeshIO3Any.
+From OV Require Import Proofs.MeshIO3Fl.
+From OV Require Proofs.MeshIO3Sample.
+
+Theorem read_layout_roundtrip_rounded : forall (A : Arith) (tok : Type) (fmt : A -> tok) (parse : tok -> res A) (rnd : A -> A),
+  (forall x, parse (fmt x) = Ok (rnd x)) ->
+  forall m m0 : mesh1 A A,
+  wf1 m -> m1_nvars m0 = m1_nvars m -> Forall (fun r => length r = m1_nvars m0) (m1_vars m0) ->
+  (let* lines := output1 tok fmt fmt m in read1 tok parse m0 (concat lines)) = Ok (map_mesh1 rnd m).
+Proof. intros A tok fmt parse rnd Hp m m0. exact (MeshIO3.read_layout_roundtrip_rounded tok fmt parse rnd Hp m m0). Qed.
+Check read_layout_roundtrip_rounded : forall (A : Arith) (tok : Type) (fmt : A -> tok) (parse : tok -> res A) (rnd : A -> A),
+  (forall x, parse (fmt x) = Ok (rnd x)) ->
+  forall m m0 : mesh1 A A,
+  wf1 m -> m1_nvars m0 = m1_nvars m -> Forall (fun r => length r = m1_nvars m0) (m1_vars m0) ->
+  (let* lines := output1 tok fmt fmt m in read1 tok parse m0 (concat lines)) = Ok (map_mesh1 rnd m).
+Print Assumptions read_layout_roundtrip_rounded.
+(* the fixed-point formatter with two decimals; a 3-node mesh holding 1/3, -2/7, 12.345, ... read into a 4-node mesh
+   holding other data; the rounding is not the identity on it *)
+Example read_layout_roundtrip_rounded_nonvacuous :
+  (forall x : AQ, parse_fix 2 (fmt_fix 2 x) = Ok (rnd_fix 2 x)) /\
+  wf1 ex_r /\ m1_nvars ex_r0 = m1_nvars ex_r /\ Forall (fun r => length r = m1_nvars ex_r0) (m1_vars ex_r0) /\
+  map_mesh1 (A:=AQ) (rnd_fix 2) ex_r <> ex_r.
+Proof.
+  split; [exact (parse_fmt_fix 2)|]. split; [exact ex_r_wf|]. split; [reflexivity|].
+  split; [repeat constructor | exact (proj2 file_roundtrip_fix_run)].
+Qed.
+
+Theorem rounded_mesh_entries : forall (A : Arith) (f : A -> A) (m : mesh1 A A),
+  wf1 m ->
+  wf1 (map_mesh1 f m) /\
+  m1_nvars (map_mesh1 f m) = m1_nvars m /\
+  length (m1_nodes (map_mesh1 f m)) = length (m1_nodes m) /\
+  length (m1_vars (map_mesh1 f m)) = length (m1_vars m) /\
+  (forall k, k < length (m1_nodes m) -> nth k (m1_nodes (map_mesh1 f m)) zero = f (nth k (m1_nodes m) zero)) /\
+  (forall k v, k < length (m1_nodes m) -> v < m1_nvars m ->
+     nth v (nth k (m1_vars (map_mesh1 f m)) []) zero = f (nth v (nth k (m1_vars m) []) zero)).
+Proof. intros A f m H. split; [exact (MeshIO3.map_mesh1_wf f m H) | exact (MeshIO3.map_mesh1_entries f m H)]. Qed.
+Check rounded_mesh_entries : forall (A : Arith) (f : A -> A) (m : mesh1 A A),
+  wf1 m ->
+  wf1 (map_mesh1 f m) /\
+  m1_nvars (map_mesh1 f m) = m1_nvars m /\
+  length (m1_nodes (map_mesh1 f m)) = length (m1_nodes m) /\
+  length (m1_vars (map_mesh1 f m)) = length (m1_vars m) /\
+  (forall k, k < length (m1_nodes m) -> nth k (m1_nodes (map_mesh1 f m)) zero = f (nth k (m1_nodes m) zero)) /\
+  (forall k v, k < length (m1_nodes m) -> v < m1_nvars m ->
+     nth v (nth k (m1_vars (map_mesh1 f m)) []) zero = f (nth v (nth k (m1_vars m) []) zero)).
+Print Assumptions rounded_mesh_entries.
+Example rounded_mesh_entries_nonvacuous : wf1 ex_r /\ 2 < length (m1_nodes ex_r) /\ 1 < m1_nvars ex_r.
+Proof. split; [exact ex_r_wf|]. split; cbn; auto. Qed.
+
+Theorem read_layout_roundtrip_held : forall (A : Arith) (tok : Type) (fmt : A -> tok) (parse : tok -> res A) (m m0 : mesh1 A A),
+  (forall x, In x (m1_nodes m ++ concat (m1_vars m)) -> parse (fmt x) = Ok x) ->
+  wf1 m -> m1_nvars m0 = m1_nvars m -> Forall (fun r => length r = m1_nvars m0) (m1_vars m0) ->
+  (let* lines := output1 tok fmt fmt m in read1 tok parse m0 (concat lines)) = Ok m.
+Proof. intros A tok fmt parse m m0. exact (MeshIO3.read_layout_roundtrip_held tok fmt parse m m0). Qed.
+Check read_layout_roundtrip_held : forall (A : Arith) (tok : Type) (fmt : A -> tok) (parse : tok -> res A) (m m0 : mesh1 A A),
+  (forall x, In x (m1_nodes m ++ concat (m1_vars m)) -> parse (fmt x) = Ok x) ->
+  wf1 m -> m1_nvars m0 = m1_nvars m -> Forall (fun r => length r = m1_nvars m0) (m1_vars m0) ->
+  (let* lines := output1 tok fmt fmt m in read1 tok parse m0 (concat lines)) = Ok m.
+Print Assumptions read_layout_roundtrip_held.
+(* one decimal: every entry of ex_h survives, 1/3 would not *)
+Example read_layout_roundtrip_held_nonvacuous :
+  (forall x : Qc, In x (m1_nodes ex_h ++ concat (m1_vars ex_h)) -> parse_fix 1 (fmt_fix 1 x) = Ok x) /\
+  wf1 ex_h /\ m1_nvars ex_r0 = m1_nvars ex_h /\ Forall (fun r => length r = m1_nvars ex_r0) (m1_vars ex_r0) /\
+  parse_fix 1 (fmt_fix 1 (q 1 3)) <> Ok (q 1 3).
+Proof.
+  split; [exact ex_h_survives|]. split; [exact ex_h_wf|]. split; [reflexivity|].
+  split; [repeat constructor | exact third_does_not_survive].
+Qed.
+
+Theorem roundtrip_idempotent : forall (A : Arith) (tok : Type) (fmt : A -> tok) (parse : tok -> res A) (rnd : A -> A),
+  (forall x, parse (fmt x) = Ok (rnd x)) -> (forall x, fmt (rnd x) = fmt x) ->
+  (forall x, rnd (rnd x) = rnd x) /\
+  forall m m0 m1 : mesh1 A A,
+  wf1 m -> m1_nvars m0 = m1_nvars m -> m1_nvars m1 = m1_nvars m ->
+  Forall (fun r => length r = m1_nvars m0) (m1_vars m0) ->
+  Forall (fun r => length r = m1_nvars m1) (m1_vars m1) ->
+  exists lines m',
+    output1 tok fmt fmt m = Ok lines /\
+    read1 tok parse m0 (concat lines) = Ok m' /\ m' = map_mesh1 rnd m /\
+    output1 tok fmt fmt m' = Ok lines /\
+    read1 tok parse m1 (concat lines) = Ok m'.
+Proof. intros A tok fmt parse rnd Hp Hf. split; [exact (MeshIO3.rnd_idempotent tok fmt parse rnd Hp Hf)|].
+  intros m m0 m1. exact (MeshIO3.roundtrip_twice tok fmt parse rnd Hp Hf m m0 m1). Qed.
+Check roundtrip_idempotent : forall (A : Arith) (tok : Type) (fmt : A -> tok) (parse : tok -> res A) (rnd : A -> A),
+  (forall x, parse (fmt x) = Ok (rnd x)) -> (forall x, fmt (rnd x) = fmt x) ->
+  (forall x, rnd (rnd x) = rnd x) /\
+  forall m m0 m1 : mesh1 A A,
+  wf1 m -> m1_nvars m0 = m1_nvars m -> m1_nvars m1 = m1_nvars m ->
+  Forall (fun r => length r = m1_nvars m0) (m1_vars m0) ->
+  Forall (fun r => length r = m1_nvars m1) (m1_vars m1) ->
+  exists lines m',
+    output1 tok fmt fmt m = Ok lines /\
+    read1 tok parse m0 (concat lines) = Ok m' /\ m' = map_mesh1 rnd m /\
+    output1 tok fmt fmt m' = Ok lines /\
+    read1 tok parse m1 (concat lines) = Ok m'.
+Print Assumptions roundtrip_idempotent.
+Example roundtrip_idempotent_nonvacuous :
+  (forall x : AQ, parse_sci 2 (fmt_sci 2 x) = Ok (rnd_sci 2 x)) /\ (forall x : AQ, fmt_sci 2 (rnd_sci 2 x) = fmt_sci 2 x) /\
+  wf1 ex_r /\ m1_nvars ex_r0 = m1_nvars ex_r /\ Forall (fun r => length r = m1_nvars ex_r0) (m1_vars ex_r0).
+Proof.
+  split; [exact (parse_fmt_sci 2)|]. split; [exact (fmt_rnd_sci 2)|]. split; [exact ex_r_wf|].
+  split; [reflexivity | repeat constructor].
+Qed.
+
+Theorem read_written_bad_token : forall (A : Arith) (tok : Type) (fmt : A -> tok) (parse : tok -> res A) (m m0 : mesh1 A A) x k,
+  wf1 m -> In x (m1_nodes m ++ concat (m1_vars m)) -> parse (fmt x) = Panic k ->
+  exists k', (let* lines := output1 tok fmt fmt m in read1 tok parse m0 (concat lines)) = Panic k'.
+Proof. intros A tok fmt parse m m0 x k. exact (MeshIO3.read_written_bad_token tok fmt parse m m0 x k). Qed.
+Check read_written_bad_token : forall (A : Arith) (tok : Type) (fmt : A -> tok) (parse : tok -> res A) (m m0 : mesh1 A A) x k,
+  wf1 m -> In x (m1_nodes m ++ concat (m1_vars m)) -> parse (fmt x) = Panic k ->
+  exists k', (let* lines := output1 tok fmt fmt m in read1 tok parse m0 (concat lines)) = Panic k'.
+Print Assumptions read_written_bad_token.
+(* a formatter that writes a malformed token for negative values; ex_r holds -2/7 *)
+Example read_written_bad_token_nonvacuous :
+  wf1 ex_r /\ In (q (-2) 7) (m1_nodes ex_r ++ concat (m1_vars ex_r)) /\ parse_fix 2 (fmt_bad (q (-2) 7)) = Panic Unwrap.
+Proof. split; [exact ex_r_wf|]. split; [cbn; auto 10 | reflexivity]. Qed.
+
+Theorem read1_ok_or_parse_panic : forall (A : Arith) (tok : Type) (parse : tok -> res A) (m0 : mesh1 A A) (toks : list tok),
+  Forall (fun r => length r = m1_nvars m0) (m1_vars m0) ->
+  match read1 tok parse m0 toks with
+  | Ok m' => wf1 m' /\ m1_nvars m' = m1_nvars m0 /\
+             length (m1_nodes m') = (length toks + m1_nvars m0) / (m1_nvars m0 + 1)
+  | Panic k => exists t, In t toks /\ parse t = Panic k
+  end.
+Proof. intros A tok parse m0 toks. exact (MeshIO3.read1_ok_or_parse_panic tok parse m0 toks). Qed.
+Check read1_ok_or_parse_panic : forall (A : Arith) (tok : Type) (parse : tok -> res A) (m0 : mesh1 A A) (toks : list tok),
+  Forall (fun r => length r = m1_nvars m0) (m1_vars m0) ->
+  match read1 tok parse m0 toks with
+  | Ok m' => wf1 m' /\ m1_nvars m' = m1_nvars m0 /\
+             length (m1_nodes m') = (length toks + m1_nvars m0) / (m1_nvars m0 + 1)
+  | Panic k => exists t, In t toks /\ parse t = Panic k
+  end.
+Print Assumptions read1_ok_or_parse_panic.
+(* five tokens for nvars = 2: one complete line and an incomplete one *)
+Example read1_ok_or_parse_panic_nonvacuous :
+  Forall (fun r => length r = m1_nvars ex_r0) (m1_vars ex_r0) /\
+  (length [FTok false 1; FTok false 2; FTok true 3; FTok false 4; FTok false 5] + m1_nvars ex_r0) / (m1_nvars ex_r0 + 1) = 2.
+Proof. split; [repeat constructor | reflexivity]. Qed.
+
+Theorem read1_ok_iff : forall (A : Arith) (tok : Type) (parse : tok -> res A) (m0 : mesh1 A A) (toks : list tok),
+  Forall (fun r => length r = m1_nvars m0) (m1_vars m0) ->
+  ((exists m', read1 tok parse m0 toks = Ok m') <-> Forall (fun t => exists x, parse t = Ok x) toks).
+Proof. intros A tok parse m0 toks. exact (MeshIO3.read1_ok_iff tok parse m0 toks). Qed.
+Check read1_ok_iff : forall (A : Arith) (tok : Type) (parse : tok -> res A) (m0 : mesh1 A A) (toks : list tok),
+  Forall (fun r => length r = m1_nvars m0) (m1_vars m0) ->
+  ((exists m', read1 tok parse m0 toks = Ok m') <-> Forall (fun t => exists x, parse t = Ok x) toks).
+Print Assumptions read1_ok_iff.
+Example read1_ok_iff_nonvacuous :
+  Forall (fun r => length r = m1_nvars ex_r0) (m1_vars ex_r0) /\
+  Forall (fun t => exists x, parse_fix 2 t = Ok x) [FTok false 1; FTok true 25] /\
+  ~ Forall (fun t => exists x, parse_fix 2 t = Ok x) [FTok false 1; FTok false (-1)].
+Proof.
+  split; [repeat constructor|]. split.
+  - repeat constructor; eexists; reflexivity.
+  - intros H. inversion H as [|? ? _ H2]. inversion H2 as [|? ? [y Hy] _]. discriminate.
+Qed.
+
+Theorem read1_panic_class : forall (A : Arith) (tok : Type) (parse : tok -> res A) (m0 : mesh1 A A) (toks : list tok) k,
+  Forall (fun r => length r = m1_nvars m0) (m1_vars m0) ->
+  (forall t k', In t toks -> parse t = Panic k' -> k' = k) ->
+  (read1 tok parse m0 toks = Panic k <-> exists t, In t toks /\ parse t = Panic k) /\
+  (forall k', read1 tok parse m0 toks = Panic k' -> k' = k).
+Proof. intros A tok parse m0 toks k. exact (MeshIO3.read1_panic_class tok parse m0 toks k). Qed.
+Check read1_panic_class : forall (A : Arith) (tok : Type) (parse : tok -> res A) (m0 : mesh1 A A) (toks : list tok) k,
+  Forall (fun r => length r = m1_nvars m0) (m1_vars m0) ->
+  (forall t k', In t toks -> parse t = Panic k' -> k' = k) ->
+  (read1 tok parse m0 toks = Panic k <-> exists t, In t toks /\ parse t = Panic k) /\
+  (forall k', read1 tok parse m0 toks = Panic k' -> k' = k).
+Print Assumptions read1_panic_class.
+Example read1_panic_class_nonvacuous :
+  Forall (fun r => length r = m1_nvars ex_r0) (m1_vars ex_r0) /\
+  (forall t k', In t [FTok false 1; FTok false (-1)] -> parse_fix 2 t = Panic k' -> k' = Unwrap) /\
+  In (FTok false (-1)) [FTok false 1; FTok false (-1)] /\ parse_fix 2 (FTok false (-1)) = Panic Unwrap.
+Proof.
+  split; [repeat constructor|]. split; [intros t k' _ H; now apply parse_fix_panic in H|].
+  split; [cbn; auto | reflexivity].
+Qed.
+
+Theorem tied_reread_rounded : forall (A : Arith) (K : @mconst A) (m : mesh1 A A) tbl,
+  wf1 m ->
+  step1 K m (O1Reread tbl) =
+  Ok (map_mesh1 (fmt_tbl tbl) m, VLinesM1 (layout1 A (fmt_tbl tbl) m) (map_mesh1 (fmt_tbl tbl) m)).
+Proof. intros A K m tbl. exact (MeshIO3.tied_reread_rounded K m tbl). Qed.
+Check tied_reread_rounded : forall (A : Arith) (K : @mconst A) (m : mesh1 A A) tbl,
+  wf1 m ->
+  step1 K m (O1Reread tbl) =
+  Ok (map_mesh1 (fmt_tbl tbl) m, VLinesM1 (layout1 A (fmt_tbl tbl) m) (map_mesh1 (fmt_tbl tbl) m)).
+Print Assumptions tied_reread_rounded.
+Example tied_reread_rounded_nonvacuous : wf1 ex_r /\ fmt_tbl (A:=AQ) [(q 1 3, q 33 100)] (q 1 3) <> q 1 3.
+Proof.
+  split; [exact ex_r_wf|]. intros E. apply (f_equal this) in E. vm_compute in E. discriminate.
+Qed.
+
+Theorem tied_file_rounded : forall (A : Arith) (K : @mconst A) (m : mesh1 A A) tbl nodes2,
+  wf1 m ->
+  step1 K m (O1File tbl (m1_nvars m) nodes2) =
+  Ok (m, VLinesM1 (layout1 A (fmt_tbl tbl) m) (map_mesh1 (fmt_tbl tbl) m)).
+Proof. intros A K m tbl nodes2. exact (MeshIO3.tied_file_rounded K m tbl nodes2). Qed.
+Check tied_file_rounded : forall (A : Arith) (K : @mconst A) (m : mesh1 A A) tbl nodes2,
+  wf1 m ->
+  step1 K m (O1File tbl (m1_nvars m) nodes2) =
+  Ok (m, VLinesM1 (layout1 A (fmt_tbl tbl) m) (map_mesh1 (fmt_tbl tbl) m)).
+Print Assumptions tied_file_rounded.
+Example tied_file_rounded_nonvacuous : wf1 ex_r.
+Proof. exact ex_r_wf. Qed.
+
+Theorem read1_any_length : forall (A : Arith) (tok : Type) (parse : tok -> res A) (m0 : mesh1 A A) (toks : list tok) (val : nat -> A),
+  (forall i, i < length toks -> exists t, nth_error toks i = Some t /\ parse t = Ok (val i)) ->
+  Forall (fun r => length r = m1_nvars m0) (m1_vars m0) ->
+  let w := m1_nvars m0 + 1 in
+  let N := (length toks + m1_nvars m0) / w in
+  read1 tok parse m0 toks =
+  Ok (mkM1 (m1_nvars m0)
+        (map (fun k => val (k * w)) (seq 0 N))
+        (map (fun k => map (fun v =>
+                if k * w + S v <? length toks then val (k * w + S v)
+                else if k <? length (m1_vars m0) then nth v (nth k (m1_vars m0) []) zero
+                else zero) (seq 0 (m1_nvars m0))) (seq 0 N))).
+Proof. intros A tok parse m0 toks val. exact (MeshIO3Any.read1_any_length_spec tok parse m0 toks val). Qed.
+Check read1_any_length : forall (A : Arith) (tok : Type) (parse : tok -> res A) (m0 : mesh1 A A) (toks : list tok) (val : nat -> A),
+  (forall i, i < length toks -> exists t, nth_error toks i = Some t /\ parse t = Ok (val i)) ->
+  Forall (fun r => length r = m1_nvars m0) (m1_vars m0) ->
+  let w := m1_nvars m0 + 1 in
+  let N := (length toks + m1_nvars m0) / w in
+  read1 tok parse m0 toks =
+  Ok (mkM1 (m1_nvars m0)
+        (map (fun k => val (k * w)) (seq 0 N))
+        (map (fun k => map (fun v =>
+                if k * w + S v <? length toks then val (k * w + S v)
+                else if k <? length (m1_vars m0) then nth v (nth k (m1_vars m0) []) zero
+                else zero) (seq 0 (m1_nvars m0))) (seq 0 N))).
+Print Assumptions read1_any_length.
+(* five tokens, nvars = 2, read into a 4-node mesh holding 7s: nodes 1 4, variables [2 3] [5 7] *)
+Example read1_any_length_nonvacuous :
+  (forall i, i < length [FTok false 1; FTok false 2; FTok false 3; FTok false 4; FTok false 5] ->
+     exists t, nth_error [FTok false 1; FTok false 2; FTok false 3; FTok false 4; FTok false 5] i = Some t /\
+               parse_fix 0 t = Ok (Q2Qc (inject_Z (Z.of_nat i + 1)))) /\
+  Forall (fun r => length r = m1_nvars ex_r0) (m1_vars ex_r0) /\
+  meshQ_view (@read1 AQ ftok (parse_fix 0) ex_r0 [FTok false 1; FTok false 2; FTok false 3; FTok false 4; FTok false 5]) =
+  Some (2, [1; 4]%Q, [[2; 3]; [5; 7]]%Q).
+Proof.
+  split; [|split; [repeat constructor | exact read_incomplete_line_run]].
+  intros i Hi. cbn [length] in Hi.
+  do 5 (destruct i as [|i]; [eexists; split; [reflexivity|]; apply (f_equal (@Ok Qc)); apply Qc_is_canon; reflexivity|]).
+  exfalso. apply (Nat.lt_irrefl 5). eapply Nat.le_lt_trans; [|exact Hi]. do 5 apply le_n_S. apply Nat.le_0_l.
+Qed.
+
+Theorem read1_incomplete_line : forall (A : Arith) (tok : Type) (parse : tok -> res A) (m0 : mesh1 A A) (toks : list tok) (val : nat -> A) n r,
+  (forall i, i < length toks -> exists t, nth_error toks i = Some t /\ parse t = Ok (val i)) ->
+  Forall (fun r => length r = m1_nvars m0) (m1_vars m0) ->
+  length toks = n * (m1_nvars m0 + 1) + r -> 0 < r < m1_nvars m0 + 1 ->
+  exists m', read1 tok parse m0 toks = Ok m' /\
+    length (m1_nodes m') = n + 1 /\
+    nth n (m1_nodes m') zero = val (n * (m1_nvars m0 + 1)) /\
+    forall v, v < m1_nvars m0 ->
+      nth v (nth n (m1_vars m') []) zero =
+      if S v <? r then val (n * (m1_nvars m0 + 1) + S v)
+      else if n <? length (m1_vars m0) then nth v (nth n (m1_vars m0) []) zero else zero.
+Proof. intros A tok parse m0 toks val n r. exact (MeshIO3Any.read1_incomplete_line tok parse m0 toks val n r). Qed.
+Check read1_incomplete_line : forall (A : Arith) (tok : Type) (parse : tok -> res A) (m0 : mesh1 A A) (toks : list tok) (val : nat -> A) n r,
+  (forall i, i < length toks -> exists t, nth_error toks i = Some t /\ parse t = Ok (val i)) ->
+  Forall (fun r => length r = m1_nvars m0) (m1_vars m0) ->
+  length toks = n * (m1_nvars m0 + 1) + r -> 0 < r < m1_nvars m0 + 1 ->
+  exists m', read1 tok parse m0 toks = Ok m' /\
+    length (m1_nodes m') = n + 1 /\
+    nth n (m1_nodes m') zero = val (n * (m1_nvars m0 + 1)) /\
+    forall v, v < m1_nvars m0 ->
+      nth v (nth n (m1_vars m') []) zero =
+      if S v <? r then val (n * (m1_nvars m0 + 1) + S v)
+      else if n <? length (m1_vars m0) then nth v (nth n (m1_vars m0) []) zero else zero.
+Print Assumptions read1_incomplete_line.
+Example read1_incomplete_line_nonvacuous :
+  length [FTok false 1; FTok false 2; FTok false 3; FTok false 4; FTok false 5] = 1 * (m1_nvars ex_r0 + 1) + 2 /\
+  0 < 2 < m1_nvars ex_r0 + 1.
+Proof. split; [reflexivity | cbn; auto]. Qed.
+
+Theorem rneQ_nearest_even : forall q : Q,
+  (Qabs (inject_Z (rneQ q) - q) <= 1 # 2)%Q /\
+  ((Qabs (inject_Z (rneQ q) - q) == 1 # 2)%Q -> Z.even (rneQ q) = true) /\
+  (forall n : Z, rneQ (inject_Z n) = n) /\
+  (forall q' : Q, (q == q')%Q -> rneQ q = rneQ q').
+Proof. intros q. split; [exact (MeshIO3Fmt.rneQ_abs_err q)|]. split; [exact (MeshIO3Fmt.rneQ_half_even q)|].
+  split; [exact MeshIO3Fmt.rneQ_inject | exact (MeshIO3Fmt.rneQ_proper q)]. Qed.
+Check rneQ_nearest_even : forall q : Q,
+  (Qabs (inject_Z (rneQ q) - q) <= 1 # 2)%Q /\
+  ((Qabs (inject_Z (rneQ q) - q) == 1 # 2)%Q -> Z.even (rneQ q) = true) /\
+  (forall n : Z, rneQ (inject_Z n) = n) /\
+  (forall q' : Q, (q == q')%Q -> rneQ q = rneQ q').
+Print Assumptions rneQ_nearest_even.
+(* 5/2 -> 2, 7/2 -> 4, -5/2 -> -2, 1/3 -> 0, 2/3 -> 1 *)
+Example rneQ_nearest_even_nonvacuous :
+  map rneQ [(5 # 2)%Q; (7 # 2)%Q; (-5 # 2)%Q; (1 # 3)%Q; (2 # 3)%Q] = [2; 4; -2; 0; 1]%Z /\
+  (Qabs (inject_Z (rneQ (5 # 2)) - (5 # 2)) == 1 # 2)%Q.
+Proof. split; reflexivity. Qed.
+
+Theorem fix_formatter_laws : forall (N : nat) (x : Qc),
+  parse_fix N (fmt_fix N x) = Ok (rnd_fix N x) /\
+  fmt_fix N (rnd_fix N x) = fmt_fix N x /\
+  (Qabs (rnd_fix N x - x) <= (1 # 2) / inject_Z (10 ^ Z.of_nat N))%Q /\
+  fmt_fix N x = FTok (Qneg x && negb (fixn N x =? 0)%Z) (rneQ (Qabs x * inject_Z (10 ^ Z.of_nat N))) /\
+  (0 <= ft_int (fmt_fix N x))%Z.
+Proof. intros N x. split; [exact (MeshIO3Fmt.parse_fmt_fix N x)|]. split; [exact (MeshIO3Fmt.fmt_rnd_fix N x)|].
+  split; [exact (MeshIO3Fmt.rnd_fix_err N x)|]. split; [reflexivity | exact (MeshIO3Fmt.fixn_nonneg N x)]. Qed.
+Check fix_formatter_laws : forall (N : nat) (x : Qc),
+  parse_fix N (fmt_fix N x) = Ok (rnd_fix N x) /\
+  fmt_fix N (rnd_fix N x) = fmt_fix N x /\
+  (Qabs (rnd_fix N x - x) <= (1 # 2) / inject_Z (10 ^ Z.of_nat N))%Q /\
+  fmt_fix N x = FTok (Qneg x && negb (fixn N x =? 0)%Z) (rneQ (Qabs x * inject_Z (10 ^ Z.of_nat N))) /\
+  (0 <= ft_int (fmt_fix N x))%Z.
+Print Assumptions fix_formatter_laws.
+(* two decimals: 1/3 -> 0.33, -2/7 -> -0.29, 12.345 -> 12.34 (tie to even), -1/1000 -> 0.00, 9.995 -> 10.00 *)
+Example fix_formatter_laws_nonvacuous :
+  map (fmt_fix 2) [q 1 3; q (-2) 7; q 12345 1000; q (-1) 1000; q 9995 1000] =
+  [FTok false 33; FTok true 29; FTok false 1234; FTok false 0; FTok false 1000].
+Proof. vm_compute. reflexivity. Qed.
+
+Theorem fix_fixpoints : forall (N : nat) (x : Qc),
+  rnd_fix N x = x <-> exists z : Z, (x == inject_Z z / inject_Z (10 ^ Z.of_nat N))%Q.
+Proof. intros N x. exact (MeshIO3Fmt.rnd_fix_fixpoint N x). Qed.
+Check fix_fixpoints : forall (N : nat) (x : Qc),
+  rnd_fix N x = x <-> exists z : Z, (x == inject_Z z / inject_Z (10 ^ Z.of_nat N))%Q.
+Print Assumptions fix_fixpoints.
+Example fix_fixpoints_nonvacuous : (q 1234 100 == inject_Z 1234 / inject_Z (10 ^ Z.of_nat 2))%Q.
+Proof. reflexivity. Qed.
+
+Theorem sci_formatter_laws : forall (N : nat) (x : Qc),
+  parse_sci N (fmt_sci N x) = Ok (rnd_sci N x) /\
+  fmt_sci N (rnd_sci N x) = fmt_sci N x /\
+  (Qabs (rnd_sci N x - x) <= Qabs x * ((1 # 2) / inject_Z (10 ^ Z.of_nat N)))%Q /\
+  ((10 ^ Z.of_nat N <= st_mant (fmt_sci N x) < 10 ^ Z.of_nat (S N))%Z \/ fmt_sci N x = STok false 0 0) /\
+  (rnd_sci N x == inject_Z (if st_neg (fmt_sci N x) then - st_mant (fmt_sci N x) else st_mant (fmt_sci N x)) *
+                  (10 # 1) ^ (st_exp (fmt_sci N x) - Z.of_nat N))%Q.
+Proof. intros N x. split; [exact (MeshIO3Fmt.parse_fmt_sci N x)|]. split; [exact (MeshIO3Fmt.fmt_rnd_sci N x)|].
+  split; [exact (MeshIO3Fmt.rnd_sci_err N x)|]. split; [exact (MeshIO3Fmt.fmt_sciQ_canonical N x)|].
+  exact (MeshIO3Fmt.Q2Qc_this _). Qed.
+Check sci_formatter_laws : forall (N : nat) (x : Qc),
+  parse_sci N (fmt_sci N x) = Ok (rnd_sci N x) /\
+  fmt_sci N (rnd_sci N x) = fmt_sci N x /\
+  (Qabs (rnd_sci N x - x) <= Qabs x * ((1 # 2) / inject_Z (10 ^ Z.of_nat N)))%Q /\
+  ((10 ^ Z.of_nat N <= st_mant (fmt_sci N x) < 10 ^ Z.of_nat (S N))%Z \/ fmt_sci N x = STok false 0 0) /\
+  (rnd_sci N x == inject_Z (if st_neg (fmt_sci N x) then - st_mant (fmt_sci N x) else st_mant (fmt_sci N x)) *
+                  (10 # 1) ^ (st_exp (fmt_sci N x) - Z.of_nat N))%Q.
+Print Assumptions sci_formatter_laws.
+(* three significant digits: 1/3 -> 3.33e-1, -2/7 -> -2.86e-1, 12.345 -> 1.23e1, 9.995 -> 1.00e1 (carry), 1/123456 -> 8.10e-6 *)
+Example sci_formatter_laws_nonvacuous :
+  map (fmt_sci 2) [q 1 3; q (-2) 7; q 12345 1000; q 9995 1000; q 1 123456; q 0 1] =
+  [STok false 333 (-1); STok true 286 (-1); STok false 123 1; STok false 100 1; STok false 810 (-6); STok false 0 0].
+Proof. vm_compute. reflexivity. Qed.
+
+Theorem sci_formatter_ulp : forall (N : nat) (x : Qc), ~ (x == 0)%Q ->
+  ((10 # 1) ^ dexp x <= Qabs x < (10 # 1) ^ (dexp x + 1))%Q /\
+  (Qabs (rnd_sci N x - x) <= (1 # 2) * (10 # 1) ^ (dexp x - Z.of_nat N))%Q /\
+  (st_exp (fmt_sci N x) = dexp x \/
+   st_exp (fmt_sci N x) = (dexp x + 1)%Z /\ st_mant (fmt_sci N x) = (10 ^ Z.of_nat N)%Z).
+Proof. intros N x. exact (MeshIO3Fmt.rnd_sci_ulp N x). Qed.
+Check sci_formatter_ulp : forall (N : nat) (x : Qc), ~ (x == 0)%Q ->
+  ((10 # 1) ^ dexp x <= Qabs x < (10 # 1) ^ (dexp x + 1))%Q /\
+  (Qabs (rnd_sci N x - x) <= (1 # 2) * (10 # 1) ^ (dexp x - Z.of_nat N))%Q /\
+  (st_exp (fmt_sci N x) = dexp x \/
+   st_exp (fmt_sci N x) = (dexp x + 1)%Z /\ st_mant (fmt_sci N x) = (10 ^ Z.of_nat N)%Z).
+Print Assumptions sci_formatter_ulp.
+(* 9.995 lies in the decade of 10^0; three digits: 9.995 -> 10.0 = 1.00e1 (the carry case) *)
+Example sci_formatter_ulp_nonvacuous :
+  ~ (q 9995 1000 == 0)%Q /\ dexp (q 9995 1000) = 0%Z /\ fmt_sci 2 (q 9995 1000) = STok false 100 1.
+Proof. split; [discriminate|]. split; vm_compute; reflexivity. Qed.
+
+Theorem file_roundtrip_fix : forall (N : nat) (m m0 : mesh1 AQ AQ),
+  wf1 m -> m1_nvars m0 = m1_nvars m -> Forall (fun r => length r = m1_nvars m0) (m1_vars m0) ->
+  (let* lines := @output1 AQ AQ ftok (fmt_fix N) (fmt_fix N) m in
+   @read1 AQ ftok (parse_fix N) m0 (concat lines)) = Ok (map_mesh1 (A:=AQ) (rnd_fix N) m) /\
+  (forall k, k < length (m1_nodes m) ->
+     (Qabs (nth k (m1_nodes (map_mesh1 (A:=AQ) (rnd_fix N) m)) 0%Qc - nth k (m1_nodes m) 0%Qc)
+       <= (1 # 2) / inject_Z (10 ^ Z.of_nat N))%Q) /\
+  (forall k v, k < length (m1_nodes m) -> v < m1_nvars m ->
+     (Qabs (nth v (nth k (m1_vars (map_mesh1 (A:=AQ) (rnd_fix N) m)) []) 0%Qc - nth v (nth k (m1_vars m) []) 0%Qc)
+       <= (1 # 2) / inject_Z (10 ^ Z.of_nat N))%Q).
+Proof. intros N m m0 Hwf Hnv Hall. split; [exact (MeshIO3Inst.file_roundtrip_fix N m m0 Hwf Hnv Hall)|].
+  exact (MeshIO3Inst.file_roundtrip_fix_close N m Hwf). Qed.
+Check file_roundtrip_fix : forall (N : nat) (m m0 : mesh1 AQ AQ),
+  wf1 m -> m1_nvars m0 = m1_nvars m -> Forall (fun r => length r = m1_nvars m0) (m1_vars m0) ->
+  (let* lines := @output1 AQ AQ ftok (fmt_fix N) (fmt_fix N) m in
+   @read1 AQ ftok (parse_fix N) m0 (concat lines)) = Ok (map_mesh1 (A:=AQ) (rnd_fix N) m) /\
+  (forall k, k < length (m1_nodes m) ->
+     (Qabs (nth k (m1_nodes (map_mesh1 (A:=AQ) (rnd_fix N) m)) 0%Qc - nth k (m1_nodes m) 0%Qc)
+       <= (1 # 2) / inject_Z (10 ^ Z.of_nat N))%Q) /\
+  (forall k v, k < length (m1_nodes m) -> v < m1_nvars m ->
+     (Qabs (nth v (nth k (m1_vars (map_mesh1 (A:=AQ) (rnd_fix N) m)) []) 0%Qc - nth v (nth k (m1_vars m) []) 0%Qc)
+       <= (1 # 2) / inject_Z (10 ^ Z.of_nat N))%Q).
+Print Assumptions file_roundtrip_fix.
+(* computed: the mesh read back is ex_r with 1/3 -> 33/100, 1/8 -> 12/100, -2/7 -> -29/100, 12.345 -> 12.34, -1/1000 -> 0,
+   9.995 -> 10, 22/7 -> 3.14, and it is not ex_r *)
+Example file_roundtrip_fix_nonvacuous :
+  meshQ_view (let* lines := @output1 AQ AQ ftok (fmt_fix 2) (fmt_fix 2) ex_r in
+              @read1 AQ ftok (parse_fix 2) ex_r0 (concat lines)) = meshQ_view (Ok ex_r_fix2) /\
+  map_mesh1 (A:=AQ) (rnd_fix 2) ex_r <> ex_r.
+Proof. exact file_roundtrip_fix_run. Qed.
+
+Theorem file_roundtrip_fix_twice : forall (N : nat) (m m0 m1 : mesh1 AQ AQ),
+  wf1 m -> m1_nvars m0 = m1_nvars m -> m1_nvars m1 = m1_nvars m ->
+  Forall (fun r => length r = m1_nvars m0) (m1_vars m0) ->
+  Forall (fun r => length r = m1_nvars m1) (m1_vars m1) ->
+  exists lines m',
+    @output1 AQ AQ ftok (fmt_fix N) (fmt_fix N) m = Ok lines /\
+    @read1 AQ ftok (parse_fix N) m0 (concat lines) = Ok m' /\ m' = map_mesh1 (A:=AQ) (rnd_fix N) m /\
+    @output1 AQ AQ ftok (fmt_fix N) (fmt_fix N) m' = Ok lines /\
+    @read1 AQ ftok (parse_fix N) m1 (concat lines) = Ok m'.
+Proof. intros N m m0 m1. exact (MeshIO3Inst.file_roundtrip_fix_twice N m m0 m1). Qed.
+Check file_roundtrip_fix_twice : forall (N : nat) (m m0 m1 : mesh1 AQ AQ),
+  wf1 m -> m1_nvars m0 = m1_nvars m -> m1_nvars m1 = m1_nvars m ->
+  Forall (fun r => length r = m1_nvars m0) (m1_vars m0) ->
+  Forall (fun r => length r = m1_nvars m1) (m1_vars m1) ->
+  exists lines m',
+    @output1 AQ AQ ftok (fmt_fix N) (fmt_fix N) m = Ok lines /\
+    @read1 AQ ftok (parse_fix N) m0 (concat lines) = Ok m' /\ m' = map_mesh1 (A:=AQ) (rnd_fix N) m /\
+    @output1 AQ AQ ftok (fmt_fix N) (fmt_fix N) m' = Ok lines /\
+    @read1 AQ ftok (parse_fix N) m1 (concat lines) = Ok m'.
+Print Assumptions file_roundtrip_fix_twice.
+Example file_roundtrip_fix_twice_nonvacuous :
+  wf1 ex_r /\ m1_nvars ex_r0 = m1_nvars ex_r /\ Forall (fun r => length r = m1_nvars ex_r0) (m1_vars ex_r0).
+Proof. split; [exact ex_r_wf|]. split; [reflexivity | repeat constructor]. Qed.
+
+Theorem file_roundtrip_fix_exact : forall (N : nat) (m m0 : mesh1 AQ AQ),
+  (forall x : Qc, In x (m1_nodes m ++ concat (m1_vars m)) ->
+     exists z : Z, (x == inject_Z z / inject_Z (10 ^ Z.of_nat N))%Q) ->
+  wf1 m -> m1_nvars m0 = m1_nvars m -> Forall (fun r => length r = m1_nvars m0) (m1_vars m0) ->
+  (let* lines := @output1 AQ AQ ftok (fmt_fix N) (fmt_fix N) m in
+   @read1 AQ ftok (parse_fix N) m0 (concat lines)) = Ok m.
+Proof. intros N m m0. exact (MeshIO3Inst.file_roundtrip_fix_exact N m m0). Qed.
+Check file_roundtrip_fix_exact : forall (N : nat) (m m0 : mesh1 AQ AQ),
+  (forall x : Qc, In x (m1_nodes m ++ concat (m1_vars m)) ->
+     exists z : Z, (x == inject_Z z / inject_Z (10 ^ Z.of_nat N))%Q) ->
+  wf1 m -> m1_nvars m0 = m1_nvars m -> Forall (fun r => length r = m1_nvars m0) (m1_vars m0) ->
+  (let* lines := @output1 AQ AQ ftok (fmt_fix N) (fmt_fix N) m in
+   @read1 AQ ftok (parse_fix N) m0 (concat lines)) = Ok m.
+Print Assumptions file_roundtrip_fix_exact.
+Example file_roundtrip_fix_exact_nonvacuous :
+  (forall x : Qc, In x (m1_nodes ex_h ++ concat (m1_vars ex_h)) ->
+     exists z : Z, (x == inject_Z z / inject_Z (10 ^ Z.of_nat 1))%Q) /\ wf1 ex_h.
+Proof.
+  split; [|exact ex_h_wf]. intros x Hx. apply (MeshIO3Fmt.rnd_fix_fixpoint 1 x).
+  pose proof (ex_h_survives x Hx) as E. rewrite MeshIO3Fmt.parse_fmt_fix in E. now injection E.
+Qed.
+
+Theorem file_roundtrip_sci : forall (N : nat) (m m0 : mesh1 AQ AQ),
+  wf1 m -> m1_nvars m0 = m1_nvars m -> Forall (fun r => length r = m1_nvars m0) (m1_vars m0) ->
+  (let* lines := @output1 AQ AQ stok (fmt_sci N) (fmt_sci N) m in
+   @read1 AQ stok (parse_sci N) m0 (concat lines)) = Ok (map_mesh1 (A:=AQ) (rnd_sci N) m) /\
+  (forall k, k < length (m1_nodes m) ->
+     (Qabs (nth k (m1_nodes (map_mesh1 (A:=AQ) (rnd_sci N) m)) 0%Qc - nth k (m1_nodes m) 0%Qc)
+       <= Qabs (nth k (m1_nodes m) 0%Qc) * ((1 # 2) / inject_Z (10 ^ Z.of_nat N)))%Q) /\
+  (forall k v, k < length (m1_nodes m) -> v < m1_nvars m ->
+     (Qabs (nth v (nth k (m1_vars (map_mesh1 (A:=AQ) (rnd_sci N) m)) []) 0%Qc - nth v (nth k (m1_vars m) []) 0%Qc)
+       <= Qabs (nth v (nth k (m1_vars m) []) 0%Qc) * ((1 # 2) / inject_Z (10 ^ Z.of_nat N)))%Q).
+Proof. intros N m m0 Hwf Hnv Hall. split; [exact (MeshIO3Inst.file_roundtrip_sci N m m0 Hwf Hnv Hall)|].
+  exact (MeshIO3Inst.file_roundtrip_sci_close N m Hwf). Qed.
+Check file_roundtrip_sci : forall (N : nat) (m m0 : mesh1 AQ AQ),
+  wf1 m -> m1_nvars m0 = m1_nvars m -> Forall (fun r => length r = m1_nvars m0) (m1_vars m0) ->
+  (let* lines := @output1 AQ AQ stok (fmt_sci N) (fmt_sci N) m in
+   @read1 AQ stok (parse_sci N) m0 (concat lines)) = Ok (map_mesh1 (A:=AQ) (rnd_sci N) m) /\
+  (forall k, k < length (m1_nodes m) ->
+     (Qabs (nth k (m1_nodes (map_mesh1 (A:=AQ) (rnd_sci N) m)) 0%Qc - nth k (m1_nodes m) 0%Qc)
+       <= Qabs (nth k (m1_nodes m) 0%Qc) * ((1 # 2) / inject_Z (10 ^ Z.of_nat N)))%Q) /\
+  (forall k v, k < length (m1_nodes m) -> v < m1_nvars m ->
+     (Qabs (nth v (nth k (m1_vars (map_mesh1 (A:=AQ) (rnd_sci N) m)) []) 0%Qc - nth v (nth k (m1_vars m) []) 0%Qc)
+       <= Qabs (nth v (nth k (m1_vars m) []) 0%Qc) * ((1 # 2) / inject_Z (10 ^ Z.of_nat N)))%Q).
+Print Assumptions file_roundtrip_sci.
+Example file_roundtrip_sci_nonvacuous :
+  meshQ_view (let* lines := @output1 AQ AQ stok (fmt_sci 2) (fmt_sci 2) ex_r in
+              @read1 AQ stok (parse_sci 2) ex_r0 (concat lines)) = meshQ_view (Ok ex_r_sci2).
+Proof. exact file_roundtrip_sci_run. Qed.
+
+Theorem read_fix_outcome : forall (N : nat) (m0 : mesh1 AQ AQ) (toks : list ftok),
+  Forall (fun r => length r = m1_nvars m0) (m1_vars m0) ->
+  (@read1 AQ ftok (parse_fix N) m0 toks = Panic Unwrap <-> exists t, In t toks /\ (ft_int t < 0)%Z) /\
+  (forall k, @read1 AQ ftok (parse_fix N) m0 toks = Panic k -> k = Unwrap).
+Proof. intros N m0 toks. exact (MeshIO3Inst.read_fix_outcome N m0 toks). Qed.
+Check read_fix_outcome : forall (N : nat) (m0 : mesh1 AQ AQ) (toks : list ftok),
+  Forall (fun r => length r = m1_nvars m0) (m1_vars m0) ->
+  (@read1 AQ ftok (parse_fix N) m0 toks = Panic Unwrap <-> exists t, In t toks /\ (ft_int t < 0)%Z) /\
+  (forall k, @read1 AQ ftok (parse_fix N) m0 toks = Panic k -> k = Unwrap).
+Print Assumptions read_fix_outcome.
+Example read_fix_outcome_nonvacuous :
+  Forall (fun r => length r = m1_nvars ex_r0) (m1_vars ex_r0) /\
+  @read1 AQ ftok (parse_fix 2) ex_r0 [FTok false 1; FTok false (-1); FTok false 2] = Panic Unwrap.
+Proof. split; [repeat constructor | vm_compute; reflexivity]. Qed.
+
+Theorem fmt_fix_near : forall (N : nat) (z : Z) (y : Q),
+  (Qabs (y - inject_Z z / inject_Z (10 ^ Z.of_nat N)) < (1 # 2) / inject_Z (10 ^ Z.of_nat N))%Q ->
+  fmt_fixQ N y = fmt_fixQ N (inject_Z z / inject_Z (10 ^ Z.of_nat N))%Q.
+Proof. intros N z y. exact (MeshIO3Fl.fmt_fixQ_near N z y). Qed.
+Check fmt_fix_near : forall (N : nat) (z : Z) (y : Q),
+  (Qabs (y - inject_Z z / inject_Z (10 ^ Z.of_nat N)) < (1 # 2) / inject_Z (10 ^ Z.of_nat N))%Q ->
+  fmt_fixQ N y = fmt_fixQ N (inject_Z z / inject_Z (10 ^ Z.of_nat N))%Q.
+Print Assumptions fmt_fix_near.
+(* 0.33 rounded to a multiple of 2^-20 is 173015/524288; it still prints 0.33 *)
+Example fmt_fix_near_nonvacuous :
+  (Qabs ((173015 # 524288) - inject_Z 33 / inject_Z (10 ^ Z.of_nat 2)) < (1 # 2) / inject_Z (10 ^ Z.of_nat 2))%Q /\
+  ~ ((173015 # 524288) == inject_Z 33 / inject_Z (10 ^ Z.of_nat 2))%Q.
+Proof. split; [reflexivity | discriminate]. Qed.
+
+Theorem file_roundtrip_fix_fl : forall (fl : Qc -> Qc) (N : nat) (m m0 : mesh1 AQ AQ),
+  wf1 m -> m1_nvars m0 = m1_nvars m -> Forall (fun r => length r = m1_nvars m0) (m1_vars m0) ->
+  (let* lines := @output1 AQ AQ ftok (fmt_fix N) (fmt_fix N) m in
+   @read1 AQ ftok (parse_fix_fl fl N) m0 (concat lines)) = Ok (map_mesh1 (A:=AQ) (rnd_fix_fl fl N) m) /\
+  (forall x : Qc, rnd_fix_fl fl N x = fl (rnd_fix N x) /\
+     (Qabs (rnd_fix_fl fl N x - x) <= (1 # 2) / inject_Z (10 ^ Z.of_nat N) + Qabs (fl (rnd_fix N x) - rnd_fix N x))%Q).
+Proof. intros fl N m m0 Hwf Hnv Hall. split; [exact (MeshIO3Fl.file_roundtrip_fix_fl fl N m m0 Hwf Hnv Hall)|].
+  intros x. split; [reflexivity | exact (MeshIO3Fl.rnd_fix_fl_err fl N x)]. Qed.
+Check file_roundtrip_fix_fl : forall (fl : Qc -> Qc) (N : nat) (m m0 : mesh1 AQ AQ),
+  wf1 m -> m1_nvars m0 = m1_nvars m -> Forall (fun r => length r = m1_nvars m0) (m1_vars m0) ->
+  (let* lines := @output1 AQ AQ ftok (fmt_fix N) (fmt_fix N) m in
+   @read1 AQ ftok (parse_fix_fl fl N) m0 (concat lines)) = Ok (map_mesh1 (A:=AQ) (rnd_fix_fl fl N) m) /\
+  (forall x : Qc, rnd_fix_fl fl N x = fl (rnd_fix N x) /\
+     (Qabs (rnd_fix_fl fl N x - x) <= (1 # 2) / inject_Z (10 ^ Z.of_nat N) + Qabs (fl (rnd_fix N x) - rnd_fix N x))%Q).
+Print Assumptions file_roundtrip_fix_fl.
+(* the parser rounds to multiples of 2^-20: 1/3 -> 0.33 -> 173015/524288 *)
+Example file_roundtrip_fix_fl_nonvacuous :
+  meshQ_view (let* lines := @output1 AQ AQ ftok (fmt_fix 2) (fmt_fix 2) ex_r in
+              @read1 AQ ftok (parse_fix_fl fl_bin20 2) ex_r0 (concat lines)) =
+  meshQ_view (Ok (map_mesh1 (A:=AQ) (rnd_fix_fl fl_bin20 2) ex_r)) /\
+  this (rnd_fix_fl fl_bin20 2 (q 1 3)) = (173015 # 524288)%Q /\
+  fmt_fix 2 (rnd_fix_fl fl_bin20 2 (q 1 3)) = FTok false 33.
+Proof. exact fl_bin20_run. Qed.
+
+Theorem file_roundtrip_fix_fl_twice : forall (fl : Qc -> Qc) (N : nat) (m m0 m1 : mesh1 AQ AQ),
+  (forall x : Qc, In x (m1_nodes m ++ concat (m1_vars m)) ->
+     (Qabs (fl (rnd_fix N x) - rnd_fix N x) < (1 # 2) / inject_Z (10 ^ Z.of_nat N))%Q) ->
+  wf1 m -> m1_nvars m0 = m1_nvars m -> m1_nvars m1 = m1_nvars m ->
+  Forall (fun r => length r = m1_nvars m0) (m1_vars m0) ->
+  Forall (fun r => length r = m1_nvars m1) (m1_vars m1) ->
+  exists lines m',
+    @output1 AQ AQ ftok (fmt_fix N) (fmt_fix N) m = Ok lines /\
+    @read1 AQ ftok (parse_fix_fl fl N) m0 (concat lines) = Ok m' /\
+    m' = map_mesh1 (A:=AQ) (rnd_fix_fl fl N) m /\
+    @output1 AQ AQ ftok (fmt_fix N) (fmt_fix N) m' = Ok lines /\
+    @read1 AQ ftok (parse_fix_fl fl N) m1 (concat lines) = Ok m'.
+Proof. intros fl N m m0 m1. exact (MeshIO3Fl.file_roundtrip_fix_fl_twice fl N m m0 m1). Qed.
+Check file_roundtrip_fix_fl_twice : forall (fl : Qc -> Qc) (N : nat) (m m0 m1 : mesh1 AQ AQ),
+  (forall x : Qc, In x (m1_nodes m ++ concat (m1_vars m)) ->
+     (Qabs (fl (rnd_fix N x) - rnd_fix N x) < (1 # 2) / inject_Z (10 ^ Z.of_nat N))%Q) ->
+  wf1 m -> m1_nvars m0 = m1_nvars m -> m1_nvars m1 = m1_nvars m ->
+  Forall (fun r => length r = m1_nvars m0) (m1_vars m0) ->
+  Forall (fun r => length r = m1_nvars m1) (m1_vars m1) ->
+  exists lines m',
+    @output1 AQ AQ ftok (fmt_fix N) (fmt_fix N) m = Ok lines /\
+    @read1 AQ ftok (parse_fix_fl fl N) m0 (concat lines) = Ok m' /\
+    m' = map_mesh1 (A:=AQ) (rnd_fix_fl fl N) m /\
+    @output1 AQ AQ ftok (fmt_fix N) (fmt_fix N) m' = Ok lines /\
+    @read1 AQ ftok (parse_fix_fl fl N) m1 (concat lines) = Ok m'.
+Print Assumptions file_roundtrip_fix_fl_twice.
+Example file_roundtrip_fix_fl_twice_nonvacuous :
+  (forall x : Qc, In x (m1_nodes ex_r ++ concat (m1_vars ex_r)) ->
+     (Qabs (fl_bin20 (rnd_fix 2 x) - rnd_fix 2 x) < (1 # 2) / inject_Z (10 ^ Z.of_nat 2))%Q) /\ wf1 ex_r.
+Proof.
+  split; [|exact ex_r_wf]. intros x _. eapply Qle_lt_trans; [apply fl_bin20_err | reflexivity].
+Qed.
+
+Theorem file_roundtrip_fix_fl_twice_rel : forall (fl : Qc -> Qc) (u : Q),
+  (forall y : Qc, (Qabs (fl y - y) <= u * Qabs y)%Q) ->
+  forall (N : nat) (m m0 m1 : mesh1 AQ AQ),
+  (forall x : Qc, In x (m1_nodes m ++ concat (m1_vars m)) ->
+     (u * Qabs (rnd_fix N x) < (1 # 2) / inject_Z (10 ^ Z.of_nat N))%Q) ->
+  wf1 m -> m1_nvars m0 = m1_nvars m -> m1_nvars m1 = m1_nvars m ->
+  Forall (fun r => length r = m1_nvars m0) (m1_vars m0) ->
+  Forall (fun r => length r = m1_nvars m1) (m1_vars m1) ->
+  (exists lines m',
+    @output1 AQ AQ ftok (fmt_fix N) (fmt_fix N) m = Ok lines /\
+    @read1 AQ ftok (parse_fix_fl fl N) m0 (concat lines) = Ok m' /\
+    m' = map_mesh1 (A:=AQ) (rnd_fix_fl fl N) m /\
+    @output1 AQ AQ ftok (fmt_fix N) (fmt_fix N) m' = Ok lines /\
+    @read1 AQ ftok (parse_fix_fl fl N) m1 (concat lines) = Ok m') /\
+  (forall x : Qc, (Qabs (rnd_fix_fl fl N x - x) <= (1 # 2) / inject_Z (10 ^ Z.of_nat N) + u * Qabs (rnd_fix N x))%Q).
+Proof. intros fl u Hrel N m m0 m1 Hb Hwf Hnv0 Hnv1 Hall0 Hall1.
+  split; [exact (MeshIO3Fl.file_roundtrip_fix_fl_twice_rel fl u Hrel N m m0 m1 Hb Hwf Hnv0 Hnv1 Hall0 Hall1)|].
+  exact (MeshIO3Fl.rnd_fix_fl_err_rel fl u Hrel N). Qed.
+Check file_roundtrip_fix_fl_twice_rel : forall (fl : Qc -> Qc) (u : Q),
+  (forall y : Qc, (Qabs (fl y - y) <= u * Qabs y)%Q) ->
+  forall (N : nat) (m m0 m1 : mesh1 AQ AQ),
+  (forall x : Qc, In x (m1_nodes m ++ concat (m1_vars m)) ->
+     (u * Qabs (rnd_fix N x) < (1 # 2) / inject_Z (10 ^ Z.of_nat N))%Q) ->
+  wf1 m -> m1_nvars m0 = m1_nvars m -> m1_nvars m1 = m1_nvars m ->
+  Forall (fun r => length r = m1_nvars m0) (m1_vars m0) ->
+  Forall (fun r => length r = m1_nvars m1) (m1_vars m1) ->
+  (exists lines m',
+    @output1 AQ AQ ftok (fmt_fix N) (fmt_fix N) m = Ok lines /\
+    @read1 AQ ftok (parse_fix_fl fl N) m0 (concat lines) = Ok m' /\
+    m' = map_mesh1 (A:=AQ) (rnd_fix_fl fl N) m /\
+    @output1 AQ AQ ftok (fmt_fix N) (fmt_fix N) m' = Ok lines /\
+    @read1 AQ ftok (parse_fix_fl fl N) m1 (concat lines) = Ok m') /\
+  (forall x : Qc, (Qabs (rnd_fix_fl fl N x - x) <= (1 # 2) / inject_Z (10 ^ Z.of_nat N) + u * Qabs (rnd_fix N x))%Q).
+Print Assumptions file_roundtrip_fix_fl_twice_rel.
+(* a relative perturbation of exactly 2^-30; the entries of ex_r are below 10^-2 / (2 * 2^-30) *)
+Example file_roundtrip_fix_fl_twice_rel_nonvacuous :
+  (forall y : Qc, (Qabs (fl_scale y - y) <= (1 # 1073741824) * Qabs y)%Q) /\
+  (forall x : Qc, In x (m1_nodes ex_r ++ concat (m1_vars ex_r)) ->
+     ((1 # 1073741824) * Qabs (rnd_fix 2 x) < (1 # 2) / inject_Z (10 ^ Z.of_nat 2))%Q) /\
+  fl_scale (q 1 3) <> q 1 3.
+Proof.
+  split; [exact fl_scale_rel|]. split.
+  - intros x Hx. cbn in Hx. repeat (destruct Hx as [<-|Hx]; [vm_compute; reflexivity|]). destruct Hx.
+  - intros E. apply (f_equal this) in E. vm_compute in E. discriminate.
+Qed.
+
+Theorem file_roundtrip_fix_nearest : forall (fl : Qc -> Qc) (F : Qc -> Prop),
+  (forall y f : Qc, F f -> (Qabs (fl y - y) <= Qabs (f - y))%Q) ->
+  forall (N : nat),
+  (forall x : Qc, F x -> fmt_fix N (rnd_fix_fl fl N x) = fmt_fix N x /\
+                         (Qabs (rnd_fix_fl fl N x - x) <= 1 / inject_Z (10 ^ Z.of_nat N))%Q) /\
+  forall m m0 m1 : mesh1 AQ AQ,
+  (forall x : Qc, In x (m1_nodes m ++ concat (m1_vars m)) -> F x) ->
+  wf1 m -> m1_nvars m0 = m1_nvars m -> m1_nvars m1 = m1_nvars m ->
+  Forall (fun r => length r = m1_nvars m0) (m1_vars m0) ->
+  Forall (fun r => length r = m1_nvars m1) (m1_vars m1) ->
+  exists lines m',
+    @output1 AQ AQ ftok (fmt_fix N) (fmt_fix N) m = Ok lines /\
+    @read1 AQ ftok (parse_fix_fl fl N) m0 (concat lines) = Ok m' /\
+    m' = map_mesh1 (A:=AQ) (rnd_fix_fl fl N) m /\
+    @output1 AQ AQ ftok (fmt_fix N) (fmt_fix N) m' = Ok lines /\
+    @read1 AQ ftok (parse_fix_fl fl N) m1 (concat lines) = Ok m'.
+Proof. intros fl F Hn N. split.
+  - intros x HF. split; [exact (MeshIO3Fl.fmt_rnd_fix_proj fl F Hn N x HF) | exact (MeshIO3Fl.rnd_fix_proj_err fl F Hn N x HF)].
+  - intros m m0 m1. exact (MeshIO3Fl.file_roundtrip_fix_proj_twice fl F Hn N m m0 m1). Qed.
+Check file_roundtrip_fix_nearest : forall (fl : Qc -> Qc) (F : Qc -> Prop),
+  (forall y f : Qc, F f -> (Qabs (fl y - y) <= Qabs (f - y))%Q) ->
+  forall (N : nat),
+  (forall x : Qc, F x -> fmt_fix N (rnd_fix_fl fl N x) = fmt_fix N x /\
+                         (Qabs (rnd_fix_fl fl N x - x) <= 1 / inject_Z (10 ^ Z.of_nat N))%Q) /\
+  forall m m0 m1 : mesh1 AQ AQ,
+  (forall x : Qc, In x (m1_nodes m ++ concat (m1_vars m)) -> F x) ->
+  wf1 m -> m1_nvars m0 = m1_nvars m -> m1_nvars m1 = m1_nvars m ->
+  Forall (fun r => length r = m1_nvars m0) (m1_vars m0) ->
+  Forall (fun r => length r = m1_nvars m1) (m1_vars m1) ->
+  exists lines m',
+    @output1 AQ AQ ftok (fmt_fix N) (fmt_fix N) m = Ok lines /\
+    @read1 AQ ftok (parse_fix_fl fl N) m0 (concat lines) = Ok m' /\
+    m' = map_mesh1 (A:=AQ) (rnd_fix_fl fl N) m /\
+    @output1 AQ AQ ftok (fmt_fix N) (fmt_fix N) m' = Ok lines /\
+    @read1 AQ ftok (parse_fix_fl fl N) m1 (concat lines) = Ok m'.
+Print Assumptions file_roundtrip_fix_nearest.
+(* F = the multiples of 1/8, fl = nearest multiple of 1/8; 97/8 = 12.125 is a tie at two decimals: printed 12.12,
+   parsed as 12.12 = 303/25, rounded by the parser to 12.125 again; 1000001/8 is far beyond any relative bound *)
+Example file_roundtrip_fix_nearest_nonvacuous :
+  (forall y f : Qc, F8 f -> (Qabs (fl8 y - y) <= Qabs (f - y))%Q) /\
+  (forall x : Qc, In x (m1_nodes ex_f8 ++ concat (m1_vars ex_f8)) -> F8 x) /\
+  fmt_fix 2 (q 97 8) = FTok false 1212 /\
+  this (rnd_fix_fl fl8 2 (q 97 8)) = (97 # 8)%Q /\ this (rnd_fix 2 (q 97 8)) = (303 # 25)%Q.
+Proof. split; [exact fl8_nearest | exact proj_run]. Qed.
+
+Theorem output_var2_layout : forall (A : Arith) (tok : Type) (fmt : A -> tok) (m : mesh2 A A) var,
+  wf2 m ->
+  (var < m2_nvars m ->
+     output_var2 tok fmt fmt m var = Ok (layout_var2 tok fmt m var) /\
+     length (layout_var2 tok fmt m var) = m2_ny m * (m2_nx m + 1) /\
+     (forall i j, i < m2_nx m -> j < m2_ny m ->
+        nth_error (layout_var2 tok fmt m var) (j * (m2_nx m + 1) + i) =
+        Some [fmt (nth i (m2_x m) zero); fmt (nth j (m2_y m) zero);
+              fmt (nth var (nth (i * m2_ny m + j) (m2_vars m) []) zero)]) /\
+     (forall j, j < m2_ny m -> nth_error (layout_var2 tok fmt m var) (j * (m2_nx m + 1) + m2_nx m) = Some [])) /\
+  (m2_nvars m <= var -> 0 < m2_nx m -> 0 < m2_ny m -> output_var2 tok fmt fmt m var = Panic Index).
+Proof. intros A tok fmt m var Hwf. split.
+  - intros Hv. split; [exact (MeshIO3Out2.output_var2_layout tok fmt m var Hwf Hv)|].
+    split; [exact (MeshIO3Out2.layout_var2_length tok fmt m var)|].
+    split; [exact (MeshIO3Out2.layout_var2_line tok fmt m var) | exact (MeshIO3Out2.layout_var2_blank tok fmt m var)].
+  - exact (MeshIO3Out2.output_var2_bad_var tok fmt m var Hwf). Qed.
+Check output_var2_layout : forall (A : Arith) (tok : Type) (fmt : A -> tok) (m : mesh2 A A) var,
+  wf2 m ->
+  (var < m2_nvars m ->
+     output_var2 tok fmt fmt m var = Ok (layout_var2 tok fmt m var) /\
+     length (layout_var2 tok fmt m var) = m2_ny m * (m2_nx m + 1) /\
+     (forall i j, i < m2_nx m -> j < m2_ny m ->
+        nth_error (layout_var2 tok fmt m var) (j * (m2_nx m + 1) + i) =
+        Some [fmt (nth i (m2_x m) zero); fmt (nth j (m2_y m) zero);
+              fmt (nth var (nth (i * m2_ny m + j) (m2_vars m) []) zero)]) /\
+     (forall j, j < m2_ny m -> nth_error (layout_var2 tok fmt m var) (j * (m2_nx m + 1) + m2_nx m) = Some [])) /\
+  (m2_nvars m <= var -> 0 < m2_nx m -> 0 < m2_ny m -> output_var2 tok fmt fmt m var = Panic Index).
+Print Assumptions output_var2_layout.
+Example output_var2_layout_nonvacuous :
+  wf2 (mesh2_new (A:=AQ) [q 0 1; q 1 1; q 3 1] [q 0 1; q 2 1] 2) /\
+  1 < m2_nvars (mesh2_new (A:=AQ) [q 0 1; q 1 1; q 3 1] [q 0 1; q 2 1] 2).
+Proof. split; [apply mesh2_new_wf | cbn; auto]. Qed.
+
+Theorem output2_contents : forall (A : Arith) (tok : Type) (fmt : A -> tok) (m : mesh2 A A),
+  wf2 m ->
+  (forall i j, i < m2_nx m -> j < m2_ny m ->
+     nth_error (layout2 tok fmt m) (j * (m2_nx m + 1) + i) = Some (line2 tok fmt m j i) /\
+     length (line2 tok fmt m j i) = m2_nvars m + 2 /\
+     nth_error (line2 tok fmt m j i) 0 = Some (fmt (nth i (m2_x m) zero)) /\
+     nth_error (line2 tok fmt m j i) 1 = Some (fmt (nth j (m2_y m) zero)) /\
+     (forall v, v < m2_nvars m ->
+        nth_error (line2 tok fmt m j i) (v + 2) = Some (fmt (nth v (nth (i * m2_ny m + j) (m2_vars m) []) zero))) /\
+     (forall c, c < m2_nvars m + 2 ->
+        nth_error (concat (layout2 tok fmt m)) ((j * m2_nx m + i) * (m2_nvars m + 2) + c) =
+        nth_error (line2 tok fmt m j i) c)) /\
+  (forall j, j < m2_ny m -> nth_error (layout2 tok fmt m) (j * (m2_nx m + 1) + m2_nx m) = Some []) /\
+  length (concat (layout2 tok fmt m)) = m2_ny m * m2_nx m * (m2_nvars m + 2).
+Proof. intros A tok fmt m Hwf. split; [|split].
+  - intros i j Hi Hj. split; [exact (MeshIO3Out2.layout2_line tok fmt m i j Hi Hj)|].
+    destruct (MeshIO3Out2.line2_tokens tok fmt m i j Hwf Hi Hj) as (H1 & H2 & H3 & H4).
+    split; [exact H1|]. split; [exact H2|]. split; [exact H3|]. split; [exact H4|].
+    intros c Hc. exact (MeshIO3Out2.layout2_token tok fmt m i j c Hwf Hi Hj Hc).
+  - exact (MeshIO3Out2.layout2_blank tok fmt m).
+  - exact (MeshIO3Out2.layout2_toks_length tok fmt m Hwf). Qed.
+Check output2_contents : forall (A : Arith) (tok : Type) (fmt : A -> tok) (m : mesh2 A A),
+  wf2 m ->
+  (forall i j, i < m2_nx m -> j < m2_ny m ->
+     nth_error (layout2 tok fmt m) (j * (m2_nx m + 1) + i) = Some (line2 tok fmt m j i) /\
+     length (line2 tok fmt m j i) = m2_nvars m + 2 /\
+     nth_error (line2 tok fmt m j i) 0 = Some (fmt (nth i (m2_x m) zero)) /\
+     nth_error (line2 tok fmt m j i) 1 = Some (fmt (nth j (m2_y m) zero)) /\
+     (forall v, v < m2_nvars m ->
+        nth_error (line2 tok fmt m j i) (v + 2) = Some (fmt (nth v (nth (i * m2_ny m + j) (m2_vars m) []) zero))) /\
+     (forall c, c < m2_nvars m + 2 ->
+        nth_error (concat (layout2 tok fmt m)) ((j * m2_nx m + i) * (m2_nvars m + 2) + c) =
+        nth_error (line2 tok fmt m j i) c)) /\
+  (forall j, j < m2_ny m -> nth_error (layout2 tok fmt m) (j * (m2_nx m + 1) + m2_nx m) = Some []) /\
+  length (concat (layout2 tok fmt m)) = m2_ny m * m2_nx m * (m2_nvars m + 2).
+Print Assumptions output2_contents.
+Example output2_contents_nonvacuous :
+  wf2 (mesh2_new (A:=AQ) [q 0 1; q 1 1; q 3 1] [q 0 1; q 2 1] 2) /\
+  2 < m2_nx (mesh2_new (A:=AQ) [q 0 1; q 1 1; q 3 1] [q 0 1; q 2 1] 2) /\
+  1 < m2_ny (mesh2_new (A:=AQ) [q 0 1; q 1 1; q 3 1] [q 0 1; q 2 1] 2).
+Proof. split; [apply mesh2_new_wf | cbn; auto]. Qed.
+
+Theorem output_var2_is_projection : forall (A : Arith) (tok : Type) (fmt : A -> tok) (m : mesh2 A A) var,
+  wf2 m -> var < m2_nvars m ->
+  layout_var2 tok fmt m var = map (pick_var tok var) (layout2 tok fmt m).
+Proof. intros A tok fmt m var. exact (MeshIO3Out2.layout_var2_pick tok fmt m var). Qed.
+Check output_var2_is_projection : forall (A : Arith) (tok : Type) (fmt : A -> tok) (m : mesh2 A A) var,
+  wf2 m -> var < m2_nvars m ->
+  layout_var2 tok fmt m var = map (pick_var tok var) (layout2 tok fmt m).
+Print Assumptions output_var2_is_projection.
+Example output_var2_is_projection_nonvacuous :
+  pick_var nat 1 [10; 20; 31; 32; 33] = [10; 20; 32] /\ pick_var nat 1 [] = [].
+Proof. split; reflexivity. Qed.
+
